@@ -403,28 +403,34 @@ def check_library(ctx, rng, names, datas, n_pres, batch):
     # relational oracle: same physical data => same non-dimensional content and same evaluations
     good = [x for x in per_pres if x is not None]
     for other in good[1:]:
-        for nm in names:
-            a, b = good[0][0].get(nm), other[0].get(nm)
-            if a is None or b is None:
-                continue
-            same = (a['H'] is None) == (b['H'] is None) and (a['S'] is None) == (b['S'] is None) and len(a['cp']) == len(b['cp'])
-            if same and L.all_plain(a) and L.all_plain(b):
-                same = all(cmp_num(x['num'], y['num'], 1e-11) for x, y in
-                           [(a[k], b[k]) for k in ('H', 'S') if a[k] is not None] +
-                           [(p[1], q[1]) for p, q in zip(a['cp'], b['cp'])])
-                same = same and cmp_num(a['Tref'], b['Tref'], 1e-11)
-            if not same:
-                ctx.violation('the same data in two unit presentations load differently', {'a': good[0][2], 'b': other[2], 'group': nm},
-                              expected=a, observed=b)
-            for (f1, T1, v1), (f2, T2, v2) in zip(good[0][1].get(nm, []), other[1].get(nm, [])):
-                if isinstance(v1, float) and isinstance(v2, float):
-                    if not cmp_num(v1, v2, 1e-8) and abs(v1 - v2) > 1e-9:
-                        ctx.violation('the same data in two unit presentations evaluate differently',
-                                      {'a': good[0][2], 'b': other[2], 'group': nm, 'T': T1, 'method': f1}, expected=v1, observed=v2)
-                elif v1 != v2:
+        relate(ctx, names, good[0], other)
+
+
+def relate(ctx, names, first, other):
+    """two loaded presentations (observed library, evaluations, input) of the same physical data: same non-dimensional content,
+    same evaluations"""
+    for nm in names:
+        a, b = first[0].get(nm), other[0].get(nm)
+        if a is None or b is None:
+            continue
+        same = (a['H'] is None) == (b['H'] is None) and (a['S'] is None) == (b['S'] is None) and len(a['cp']) == len(b['cp'])
+        if same and L.all_plain(a) and L.all_plain(b):
+            same = all(cmp_num(x['num'], y['num'], 1e-11) for x, y in
+                       [(a[k], b[k]) for k in ('H', 'S') if a[k] is not None] +
+                       [(p[1], q[1]) for p, q in zip(a['cp'], b['cp'])])
+            same = same and cmp_num(a['Tref'], b['Tref'], 1e-11)
+        if not same:
+            ctx.violation('the same data in two unit presentations load differently', {'a': first[2], 'b': other[2], 'group': nm},
+                          expected=a, observed=b)
+        for (f1, T1, v1), (f2, T2, v2) in zip(first[1].get(nm, []), other[1].get(nm, [])):
+            if isinstance(v1, float) and isinstance(v2, float):
+                if not cmp_num(v1, v2, 1e-8) and abs(v1 - v2) > 1e-9:
                     ctx.violation('the same data in two unit presentations evaluate differently',
-                                  {'a': good[0][2], 'b': other[2], 'group': nm, 'T': T1, 'method': f1}, expected=v1, observed=v2)
-            ctx.count('relational_pairs')
+                                  {'a': first[2], 'b': other[2], 'group': nm, 'T': T1, 'method': f1}, expected=v1, observed=v2)
+            elif v1 != v2:
+                ctx.violation('the same data in two unit presentations evaluate differently',
+                              {'a': first[2], 'b': other[2], 'group': nm, 'T': T1, 'method': f1}, expected=v1, observed=v2)
+        ctx.count('relational_pairs')
 
 
 def classify_error(res):
